@@ -186,6 +186,8 @@ class World:
         self.label_uuid = {}  # label -> uuid int, for every label ever registered
         self.last_loaded = None
         self.deferred = None  # a pending Diverged (see ops.execute)
+        self.aux_refs = {}  # (container label, name) -> value object handed out by the last read
+        self.immutable_contents = set()  # intervals whose contents the caller replaced by an immutable bytes object
         self.queue = []  # operations scheduled by the generator (e.g. heal before save)
 
     # --- labels --------------------------------------------------------
@@ -221,6 +223,8 @@ class World:
         self.objs.clear()
         self.lab.clear()
         self.m.nodes.clear()
+        self.immutable_contents.clear()
+        self.aux_refs.clear()
 
     def drop(self, labels):
         for l in labels:
